@@ -2620,9 +2620,14 @@ def install2(m):
             def eqb(e, v):
                 return (e.v == v) if not e.sym else (e.v == z3.BitVecVal(v, 8))
 
+            def is_ascii(e):
+                return m.ctx.branch((e.v < 0x80) if not e.sym else z3.ULT(e.v, 0x80))
+
             def ws_at_start(lo, hi):
                 if lo < hi and m.ctx.branch(ws_pred(es[lo])):
                     return 1
+                if lo < hi and is_ascii(es[lo]):
+                    return 0
                 for pat in MULTI:
                     if lo + len(pat) <= hi and m.ctx.branch(zand(*[eqb(es[lo + k], b) for k, b in enumerate(pat)])):
                         return len(pat)
@@ -2631,6 +2636,8 @@ def install2(m):
             def ws_at_end(lo, hi):
                 if hi > lo and m.ctx.branch(ws_pred(es[hi - 1])):
                     return 1
+                if hi > lo and is_ascii(es[hi - 1]):
+                    return 0
                 for pat in MULTI:
                     if hi - len(pat) >= lo and m.ctx.branch(zand(*[eqb(es[hi - len(pat) + k], b) for k, b in enumerate(pat)])):
                         return len(pat)
